@@ -25,6 +25,7 @@ RULE = (
     "level) x ALL ordered pairs against a three-valued reference built from the documented rules, plus metamorphic "
     "rules (reflexivity, union order, union distribution); two-node strict graphs accept/reject accordingly. "
     "Non-trivial: a flaw was injected; distinct = (base shape, flaw class, position) resp. type pair."
+    ' Directed: two producers that both run on one branch because one reads a name shared with the other branch (both gate kinds, both list orders); a route with three exclusive targets and a join below two of them.'
 )
 ASSUMPTIONS = [
     "mistakes that the node constructors own (string 'END' target, emit/wait_for overlap) raise ValueError by documented contract and are not injected",
